@@ -132,20 +132,43 @@ def monitor_cases(rng, tier, stats):
             guess = "orth"
             nswp = 30
             fam = "/orthogonal-guess"
+        scale = 1.0
+        if c % 8 == 7:
+            # structured family: operands of tiny (or huge) magnitude together with a user-supplied guess of comparable or zero norm — the
+            # statement is scale invariant, every convergence test inside must be relative
+            routine = ["fast_matvec", "dmrg_hadamard"][(c // 8) % 2]
+            cplx = (c // 16) % 2 == 1
+            dt = tn.complex128 if cplx else tn.float64
+            d = rng.choice([3, 4])
+            N = [rng.randint(2, 4) for _ in range(d)]
+            M = [rng.randint(2, 4) for _ in range(d)]
+            RA = [1] + [rng.randint(2, 3) for _ in range(d - 1)] + [1]
+            Rx = [1] + [rng.randint(2, 3) for _ in range(d - 1)] + [1]
+            eps = 10.0 ** rng.uniform(-10, -4)
+            decay = False
+            guess = ["zeros", "small"][(c // 8) % 2]
+            scale = [1e-15, 1e-25, 1e12][(c // 8) % 3]
+            nswp = 30
+            fam = "/scale%g-guess-%s" % (scale, guess)
         seed = rng.randrange(1 << 30)
         label = "%s/d%d/%s%s%s%s" % (routine, d, "c128" if cplx else "f64", "/decay" if decay else "", "/guess" if guess else "", fam)
         box = {}
 
-        def impl(routine=routine, d=d, N=N, M=M, dt=dt, eps=eps, decay=decay, RA=RA, Rx=Rx, guess=guess, seed=seed, box=box, label=label, nswp=nswp):
+        def impl(routine=routine, d=d, N=N, M=M, dt=dt, eps=eps, decay=decay, RA=RA, Rx=Rx, guess=guess, seed=seed, box=box, label=label, nswp=nswp, scale=scale):
             tn.manual_seed(seed)
             np.random.seed(seed % (2 ** 32))
             A = torchtt.TT(rnd_cores(rng, [[RA[k], M[k], N[k], RA[k + 1]] for k in range(d)], dt, decay))
             x = torchtt.TT(rnd_cores(rng, [[Rx[k], N[k], Rx[k + 1]] for k in range(d)], dt, decay))
             gr = [1] + [rng.randint(1, 5) for _ in range(d - 1)] + [1]
+            if scale != 1.0:
+                x = x * scale
+                A = A * scale
             if routine == "fast_matvec":
                 g = torchtt.TT(rnd_cores(rng, [[gr[k], M[k], gr[k + 1]] for k in range(d)], dt, False)) if guess else None
                 if guess == "exact":
                     g = (A @ x).round(1e-14)
+                if guess in ("zeros", "small"):
+                    g = torchtt.zeros(M, dtype=dt) if guess == "zeros" else g * (scale * scale)
                 if guess == "orth":
                     ca = [c_.clone() for c_ in A.cores]; ca[-1][:, 0, :, :] = 0; A = torchtt.TT(ca)          # the product lives on rows >= 1 of the last mode
                     cg = [c_.clone() for c_ in g.cores]; cg[-1][:, 1:, :] = 0; g = torchtt.TT(cg)            # the guess on row 0 only
@@ -155,8 +178,12 @@ def monitor_cases(rng, tier, stats):
             elif routine == "dmrg_hadamard":
                 y2 = torchtt.TT(rnd_cores(rng, [[RA[k], N[k], RA[k + 1]] for k in range(d)], dt, decay))
                 g = torchtt.TT(rnd_cores(rng, [[gr[k], N[k], gr[k + 1]] for k in range(d)], dt, False)) if guess else None
+                if scale != 1.0:
+                    y2 = y2 * scale
                 if guess == "exact":
                     g = (x * y2).round(1e-14)
+                if guess in ("zeros", "small"):
+                    g = torchtt.zeros(N, dtype=dt) if guess == "zeros" else g * (scale * scale)
                 if guess == "orth":
                     cy = [c_.clone() for c_ in y2.cores]; cy[-1][:, 0, :] = 0; y2 = torchtt.TT(cy)
                     cg = [c_.clone() for c_ in g.cores]; cg[-1][:, 1:, :] = 0; g = torchtt.TT(cg)
